@@ -176,6 +176,18 @@ def make_reg(key, missing, opts):
             NICKernelRegressor(metric_dict={"gamma": gamma},
                                missing_label=missing, random_state=2),
         ]
+    if key == "reg_list_no_tree":
+        # committee without a decision tree: scikit-learn's tree induction
+        # breaks exactly tied splits by floating-point summation order, so
+        # it is not invariant under a permutation of the training rows
+        from sklearn.linear_model import LinearRegression
+        return [
+            SklearnRegressor(LinearRegression(), missing_label=missing,
+                             random_state=0),
+            NICKernelRegressor(missing_label=missing, random_state=1),
+            NICKernelRegressor(metric_dict={"gamma": gamma},
+                               missing_label=missing, random_state=2),
+        ]
     if key == "rf_reg":
         from sklearn.ensemble import RandomForestRegressor
         return SklearnRegressor(
